@@ -65,8 +65,12 @@ def run(ctx):
     kinds = ["logistic_diag_src1", "mixture_2"] if q else ["logistic_diag_src1", "mixture_2", "joint_src1", "linear_scalar_src1", "shared_speed_src1"]
     good = None
     for kind in kinds:
-        cfgs = [dict(n=5, burn=("count", 0), pw=(4, 5), rnd=True), dict(n=6, burn=("count", 3), pw=(1, 1), rnd=True),
+        # (with entries missing inside visits, so that the noise rules see partially observed visits in both phases;
+        # for the mixture model one run starts with a starved cluster)
+        cfgs = [dict(n=5, burn=("count", 0), pw=(4, 5), rnd=True, missing=0.3), dict(n=6, burn=("count", 3), pw=(1, 1), rnd=True, missing=0.3),
                 dict(n=4, burn=("frac", 10), pw=(4, 5), rnd=False)]
+        if kind.startswith("mixture"):
+            cfgs.append(dict(n=5, burn=("count", 3), pw=(4, 5), rnd=True, starve=True))
         events, vars_, params = [], None, None
         for i, c in enumerate(cfgs):
             w = os.path.join(ctx.tmp, f"w4_{kind}_{i}")
@@ -76,7 +80,7 @@ def run(ctx):
             if info.get("vars"):
                 vars_, params = info["vars"], info["params_names"]
             ctx.case(key=(kind, c["n"], c["burn"]))
-        ok, k, res = saem.validate(events, vars_, params, os.path.join(ctx.tmp, "tr4"), f"C04_{kind}")
+        ok, k, res = saem.validate(events, vars_, params, os.path.join(ctx.tmp, "tr4"), f"C04_{kind}", closed_forms=True)
         ctx.traces += len(cfgs)
         ctx.log(f"{kind}: {len(cfgs)} fits, {len(events)} events -> {'accepted' if ok else f'REJECTED at event {k}'}")
         if ok and good is None:
@@ -92,7 +96,7 @@ def run(ctx):
         bad = copy.deepcopy(events)
         st = bad[idx]["steps"]
         st[0], st[-1] = st[-1], st[0]
-        ok, k, _ = saem.validate(bad, vars_, params, os.path.join(ctx.tmp, "tr4"), "C04_selftest")
+        ok, k, _ = saem.validate(bad, vars_, params, os.path.join(ctx.tmp, "tr4"), "C04_selftest", closed_forms=True)
         if ok or k != idx:
             raise tlc.MachineryError("binding self-test failed: an assignment before a computation was accepted")
         ctx.log("self-test: assignment before computation rejected (as required)")
